@@ -109,6 +109,8 @@ def compare(sensor, got, ref):
     if ref is refdec.NOVALUE:
         return None if got[0] == 'ValueError' else f'decoded {str(got[1])[:40]!r}, reference: no value'
     if got[0] == 'ValueError':
+        if isinstance(ref, dict) and ref.get('_either'):
+            return None
         return f'ValueError({got[1]}), reference: {str(ref)[:60]}'
     v = got[1]
     if isinstance(ref, dict):
